@@ -6,6 +6,20 @@ import os
 HERE = os.path.dirname(os.path.dirname(os.path.abspath(__file__)))
 
 CLAIMS = {
+    "C09": dict(
+        text="Static non-interference analysis of the is_predict flag: the six context-free predict methods are "
+             "argmax o predict_expectations and utils.argmax is the first-maximum idiom; on the abstract traces of "
+             "all 55 configurations predict and predict_expectations consume the random stream identically (apart "
+             "from the two documented exceptions), the returned arm is produced by max(d, key=d.get) over a "
+             "label-keyed dictionary or by np.argmax(E, axis=1) over the unmodified expectation matrix whose "
+             "columns follow the arm list, and no min/argmin/sort/reverse is applied to arms or expectations on a "
+             "prediction path; listed projection pairs on is_predict are recognised. Decides that predict is the "
+             "first-maximum projection of the expectations predict_expectations returns from the same state.",
+        note="Trusted: max(d, key=d.get) and numpy.argmax return the first maximum; dict order; NaN behaviour of "
+             "argmax (exception rows) not decided.",
+        technique="dependence/non-interference check by comparing abstract-interpretation traces of the two entry "
+                  "points + provenance of the selecting maximum + AST idiom rules",
+        ref="DESIGN.md section 3, C09"),
     "C03": dict(
         text="Static structural rules on the neighbour selection plus ownership facts from the abstract traces: "
              "inclusive radius comparison; argpartition pivot k-1 and slice k; cdist operands (all stored "
